@@ -89,7 +89,7 @@ def obligations(tier):
                         continue
                     obs.append(dict(base, inp='list', ln=ln))
                 obs.append(dict(base, inp='named', _weight=8))
-                if cm in ('name', 'positional') and not ({VP, VK} & {k for k, _ in sig}) and (n <= 2 or tier != 'quick'):
+                if cm in ('name', 'positional') and not ({VP, VK} & {k for k, _ in sig}) and n <= (2 if tier == 'quick' else 3):
                     # the SAME function object also registered as a plain method (its 'ctx' an ordinary parameter there);
                     # whichever registration is served first must not decide how the other binds
                     obs.append(dict(base, inp='list', ln=n, twice=1))
@@ -98,7 +98,7 @@ def obligations(tier):
                     wb = dict(base, fk='wcoro')
                     obs.append(dict(wb, inp='list', ln=n))
                     obs.append(dict(wb, inp='named', _weight=8))
-                if cm == 'view' and n >= 1 and not ({VP, VK} & {k for k, _ in sig}) and (n <= 2 or tier != 'quick'):
+                if cm == 'view' and n >= 1 and not ({VP, VK} & {k for k, _ in sig}) and n <= (2 if tier == 'quick' else 3):
                     obs.append(dict(base, inp='list', ln=n, same=1))
                     obs.append(dict(base, inp='list', ln=n - 1, same=1))
                     obs.append(dict(base, inp='named', same=1, _weight=8))
